@@ -440,6 +440,15 @@ def execute(case):
                     viol.append(("cache-usage-counter-drift", {}, {"usage": int(mc.memory_usage), "entries": acct}))
                 elif mc.memory_usage > mc.memory_cache_bytes:
                     viol.append(("cache-over-budget", {}, {"usage": int(mc.memory_usage)}))
+                else:
+                    # ... and honest: every entry is accounted at the library's own size estimate of what it holds (what a
+                    # sequential execution records)
+                    est = type(mc)._estimate_object_size
+                    for key, e in sorted(mc.cache.items()):
+                        real = int(est(e.value)) if e.has_value else int(est(None))
+                        if int(e.obj_size) != real:
+                            viol.append(("cache-entry-size-dishonest", {}, {"key": key, "accounted": int(e.obj_size), "estimate": real}))
+                            break
                 dq = list(mc.lru_deque)
                 if sorted(dq) != sorted(mc.cache.keys()):
                     viol.append(("cache-queue-key-mismatch", {}, {"queue": len(dq), "keys": len(mc.cache), "dups": len(dq) - len(set(dq))}))
